@@ -707,7 +707,7 @@ func generateTables(source *syntax.Model, out *grammar.Grammar, opts genOptions,
 func addTypes(vars *grammar.ActionVars, syms []grammar.Symbol) {
 	vars.Types = make(map[int]string)
 	for _, ref := range vars.CmdArgs.ArgRefs {
-		if ref.Symbol < len(syms) {
+		if ref.Symbol >= 0 && ref.Symbol < len(syms) {
 			vars.Types[ref.Pos] = syms[ref.Symbol].Type
 		} else {
 			// No types for extracted commands.
